@@ -36,7 +36,7 @@ def _implied_suffixes(ctx: Ctx, fi: FuncInfo, n: ast.AST, base: str) -> List[str
     for f, pol in facts_ex(ctx, fi, n):
         if pol and f.startswith(f'{base}.endswith('):
             e = ast.parse(f, mode='eval').body
-            okl, lit = try_fold(e.args[0]) if e.args else (False, None)
+            okl, lit = try_fold(e.args[0], {}, ctx.repo, fi.module) if e.args else (False, None)
             if okl and isinstance(lit, str):
                 lits.append(lit)
     if lits:
@@ -49,7 +49,7 @@ def _implied_suffixes(ctx: Ctx, fi: FuncInfo, n: ast.AST, base: str) -> List[str
     for a in bn.atoms_of(cond):
         if a.startswith(f'{base}.endswith('):
             e = ast.parse(a, mode='eval').body
-            okl, lit = try_fold(e.args[0]) if e.args else (False, None)
+            okl, lit = try_fold(e.args[0], {}, ctx.repo, fi.module) if e.args else (False, None)
             if okl and isinstance(lit, str) and bn.equivalent(bn.mk_and([cond, bn.mk_not(('atom', a))]), False) is None:
                 lits.append(lit)
     return lits
@@ -62,7 +62,7 @@ def r28(ctx: Ctx) -> RuleReport:
         for n in walk_local(fi.node):
             if isinstance(n, ast.Subscript) and isinstance(n.slice, ast.Slice) and n.slice.lower is None \
                     and n.slice.step is None and n.slice.upper is not None:
-                ok, v = try_fold(n.slice.upper)
+                ok, v = try_fold(n.slice.upper, {}, ctx.repo, fi.module)
                 if not (ok and isinstance(v, int) and v < 0):
                     continue
                 k = -v
@@ -75,7 +75,7 @@ def r28(ctx: Ctx) -> RuleReport:
                         '' if good else f'strips {k} characters after testing for the {len(lits[0])}-character suffix {lits[0]!r}')
             if fi.module.name == M and isinstance(n, ast.Call) and isinstance(n.func, ast.Attribute) \
                     and n.func.attr in ('partition', 'replace', 'split', 'rstrip', 'strip', 'removesuffix', 'rpartition', 'rsplit') \
-                    and n.args and try_fold(n.args[0]) == (True, '-of') and n.func.attr not in ('removesuffix', 'rpartition', 'rsplit'):
+                    and n.args and try_fold(n.args[0], {}, ctx.repo, fi.module) == (True, '-of') and n.func.attr not in ('removesuffix', 'rpartition', 'rsplit'):
                 rep.violation(f'{fi.module.name}:{fi.qualname}: {norm(n)}', fi.loc(n),
                               f'.{n.func.attr}("-of") does not remove the final "-of": partition/split/replace cut at the first (or every) '
                               f'occurrence and strip removes a character set, so roles like :consist-of-of or :hand-off-of are mangled')
